@@ -224,7 +224,7 @@ pub fn gen_for(target: Target, rng: &mut Rng) -> Node {
         }
         Target::Tup => Node::Seq(vec![Node::Int(rng.below(100) as i64), Node::Int(-(rng.below(100) as i64))]),
         Target::TupS => Node::Seq(vec![Node::Int(rng.below(100) as i64), Node::Str(gen_string(rng))]),
-        Target::Map => {
+        Target::Map | Target::RcMap => {
             let n = rng.below(6);
             Node::Map((0..n).map(|i| (gen_key(rng, i), Node::Str(gen_string(rng)))).collect())
         }
@@ -567,6 +567,8 @@ pub fn corpus() -> Vec<(String, Target)> {
         ("- 5\n- five 😀\n", TupS),
         ("k1: v1\nk2: 'v 2'\nk3: \"v\\t3\"\n", Map),
         ("{}", Map),
+        ("k: &x val\nj: *x\n", RcMap),
+        ("a: &x one\nb: &y two\nc: *x\nd: *y\ne: plain\n", RcMap),
         ("base: &b {x: '1'}\n", Json),
         ("a: &x 1\nb: *x\nc: [*x, *x]\n", Json),
         ("d: &d {p: 1, q: 2}\ne:\n  <<: *d\n  r: 3\n", Json),
